@@ -359,6 +359,7 @@ fn check_utf8_stats(stats: &ParquetStatistics, op: BinaryOp, val: &str) -> bool 
 }
 
 /// Evaluate whether a value might exist in the range [min, max] for the given operator
+#[cfg_attr(kani, kani::ensures(|r: &bool| *r || !verif_kani::may_hold_i64(op, val, min, max)))]
 fn eval_range(op: BinaryOp, val: i64, min: i64, max: i64) -> bool {
     match op {
         BinaryOp::Eq => min <= val && val <= max,
@@ -371,6 +372,7 @@ fn eval_range(op: BinaryOp, val: i64, min: i64, max: i64) -> bool {
     }
 }
 
+#[cfg_attr(kani, kani::ensures(|r: &bool| *r || !verif_kani::may_hold_i32(op, val, min, max)))]
 fn eval_range_i32(op: BinaryOp, val: i32, min: i32, max: i32) -> bool {
     match op {
         BinaryOp::Eq => min <= val && val <= max,
@@ -383,6 +385,7 @@ fn eval_range_i32(op: BinaryOp, val: i32, min: i32, max: i32) -> bool {
     }
 }
 
+#[cfg_attr(kani, kani::ensures(|r: &bool| *r || !verif_kani::may_hold_f64(op, val, min, max)))]
 fn eval_range_f64(op: BinaryOp, val: f64, min: f64, max: f64) -> bool {
     match op {
         BinaryOp::Eq => min <= val && val <= max,
@@ -503,3 +506,8 @@ mod tests {
         assert!(eval_range_str(BinaryOp::Lt, "ghi", "abc", "xyz")); // min "abc" < "ghi"
     }
 }
+
+// Verification hook (/verif): contract proof harnesses; compiled only by `cargo kani`.
+#[cfg(kani)]
+#[path = "/verif/kani/row_group_pruning.rs"]
+mod verif_kani;
